@@ -33,7 +33,8 @@ VARIABLES step,      \* decisions taken so far
           fstate,    \* "ok" | "missing" | "malformed"
           bad,       \* "" or a layer whose value for the first leaf ends in 9 (fails Verify when it wins)
           fmt, watch,
-          fopt,      \* how the file spells its keys: [alias |-> the aliased leaf is written under its alias, enc |-> casing]
+          fopt,      \* how the file spells its keys: [alias |-> the aliased leaf is written under its alias, enc |-> casing,
+                     \*  emptyset |-> the file assigns [] to the set-typed leaf]
           ran,       \* the expected outcome of the entry point (after "run")
           view,      \* the expected current view (after "run")
           changes    \* later file versions with the expected outcome of each
@@ -60,7 +61,7 @@ Init ==
   /\ step = 0
   /\ prov = [l \in LeafSet |-> {}]
   /\ pathProv = {} /\ fstate = "ok" /\ bad = "" /\ fmt \in Fmts /\ watch \in BOOLEAN
-  /\ fopt = [alias |-> FALSE, enc |-> "none"]
+  /\ fopt = [alias |-> FALSE, enc |-> "none", emptyset |-> FALSE]
   /\ ran = [done |-> FALSE, err |-> "", verify |-> <<>>, exposed |-> 0]
   /\ view = [l \in LeafSet |-> 0]
   /\ changes = <<>>
@@ -78,9 +79,11 @@ ChooseFile ==
        /\ (P = {} => fs = "ok")                      \* no path: the file state is irrelevant
        /\ (b # "" => b \in prov[Leaves[1]])          \* the bad value must actually be provided
   \* spelling of the file's keys: either name of an aliased leaf sets it, whatever casing the file uses (C14 through ez)
-  /\ \E al \in BOOLEAN, enc \in FileEncs :
+  \* emptyset: every version of the file also assigns the empty list to a set-typed leaf whose default is not empty (a leaf
+  \* outside Leaves that only the file ever sets): while a usable file is stacked, the view's set is empty, else the default
+  /\ \E al \in BOOLEAN, enc \in FileEncs, es \in BOOLEAN :
        /\ (al => AliasLeaf \in LeafSet /\ "file" \in prov[AliasLeaf])
-       /\ fopt' = [alias |-> al, enc |-> enc]
+       /\ fopt' = [alias |-> al, enc |-> enc, emptyset |-> es]
   /\ step' = step + 1
   /\ UNCHANGED <<prov, fmt, watch, ran, view, changes>>
 
